@@ -11,17 +11,20 @@
 (*                  not report success for work it did not do              *)
 (*   OutsideFrame   nothing outside the root changed                       *)
 (*   NoLeak         descriptor table as before (+ returned fd)             *)
-(*   EAGAIN rule    n consecutive EAGAIN answers of openat2: n < KRetry    *)
-(*                  => same outcome as unfaulted; n >= KRetry => safety    *)
-(*                  violation -- never a partial / different result, never *)
-(*                  a raw EAGAIN                                           *)
-(* The retry automaton itself (openat2::resolve) is the K_Openat2 action   *)
-(* of Lookup.tla; KRetry here is the real constant 16.                     *)
+(*   EAGAIN rule    n consecutive EAGAIN answers of openat2 end either    *)
+(*                  with the unfaulted outcome or with a safety violation  *)
+(*                  -- never a partial / different result, never a raw     *)
+(*                  EAGAIN; one or two of them are ridden out (the call IS *)
+(*                  retried); a persistent sequence (Persistent = 5000)    *)
+(*                  ends with a safety violation (the retry IS bounded).   *)
+(* The property does not fix the bound: the real constant (16) lives in    *)
+(* the retry automaton itself, the K_Openat2 action of Lookup.tla, and a   *)
+(* different bound shows up as model drift in TraceLookup, not as an alarm.*)
 (***************************************************************************)
 EXTENDS Naturals, Sequences, TLC, Json, IOUtils
 
 Rec == ndJsonDeserialize(IOEnv.TRACE)
-KRetry == 16
+Persistent == 5000
 
 VARIABLES l, bad
 vars == <<l, bad>>
@@ -40,9 +43,12 @@ Step ==
            b3 == AddIf(b2, fired /\ e.outcome = "ok" /\ ~e.same_as_base, V("call reports success after a failed system call but its outcome differs from the unfaulted run", e))
            b4 == AddIf(b3, ~e.outside_same, V("tree outside the root changed", e))
            b5 == AddIf(b4, e.leaked, V("descriptor table changed besides the returned descriptor", e))
-           b6 == AddIf(b5, e.kind = "eagain" /\ fired /\ e.n < KRetry /\ e.retried /\ ~(e.outcome = "ok" /\ e.same_as_base) /\ e.base_ok,
-                       V("fewer than 16 EAGAIN answers of openat2 were not ridden out", e))
-           b7 == AddIf(b6, e.kind = "eagain" /\ fired /\ e.n >= KRetry /\ e.errkind # "SAFETY" /\ e.outcome # "panic" /\ e.outcome # "hang",
+           b6a == AddIf(b5, e.kind = "eagain" /\ fired /\ e.n <= 2 /\ e.retried /\ ~(e.outcome = "ok" /\ e.same_as_base) /\ e.base_ok,
+                       V("one or two EAGAIN answers of openat2 were not ridden out", e))
+           b6 == AddIf(b6a, e.kind = "eagain" /\ fired /\ e.retried /\ e.base_ok /\ e.outcome \notin {"panic", "hang"}
+                            /\ ~(e.outcome = "ok" /\ e.same_as_base) /\ e.errkind # "SAFETY",
+                       V("an EAGAIN sequence of openat2 ended with neither the unfaulted outcome nor a safety violation", e))
+           b7 == AddIf(b6, e.kind = "eagain" /\ fired /\ e.n >= Persistent /\ e.errkind # "SAFETY" /\ e.outcome # "panic" /\ e.outcome # "hang",
                        V("persistent EAGAIN did not surface as a safety violation", e))
            b8 == AddIf(b7, e.kind = "eagain" /\ fired /\ e.errkind = "EAGAIN", V("raw EAGAIN of openat2 surfaced to the caller", e))
        IN  bad' = b8
